@@ -21,7 +21,7 @@ def gen_lp(rng, kind):
     if kind == "ucb":
         return {"k": "ucb", "alpha": rng.choice([0.0, 0.5, 1.0, 2.0])}
     if kind == "softmax":
-        return {"k": "softmax", "tau": rng.choice([0.25, 1.0, 2.0, 8.0])}
+        return {"k": "softmax", "tau": rng.choice([0.25, 1.0, 2.0, 8.0, 0.001, 0.015625])}
     if kind in ("thompson", "popularity", "random"):
         return {"k": kind}
     if kind == "lingreedy":
@@ -70,6 +70,8 @@ def gen_reward(rng, lpk, binz):
         return rng.choice([0, 1, 2, 3, 0.5, 1.5])
     if lpk == "popularity":
         return rng.choice([0, 0, 1, 2, 3, 0.5, 0.125, 1.75])
+    if rng.random() < 0.06:
+        return rng.choice([1000, -1000, 65536, 1e6])     # large-magnitude stream
     return rng.choice([0, 1, 2, -1, -3, 5, 0.5, 0.125, -0.75, 1.375])
 
 
